@@ -115,6 +115,67 @@ CHECKS = {
             'Trusts TLC; the float-to-integer conversion rejects rounding errors above 1e-6 relative. Negative weights are not '
             'generated.',
             'DESIGN.md section 5 / C09'),
+    'C04': ('model_checking',
+            'TLA+ specs SubIso + Repair (JudgeRepair: unique names, element- and bond-preserving induced embedding into the '
+            'block, as many atoms recognised as a largest common induced subgraph, every block atom present and bonded as in the '
+            'block, unrecognised atoms flagged / surplus atoms of a mutated residue removed) evaluated by TLC on recorded runs of '
+            'the real RepairGraph over synthetic blocks (exact) and every shipped atomistic block (planted lower bound)',
+            'Each presentation (names scrambled / junk / drawn from the whole block, atoms permuted, sparse keys, atoms deleted, '
+            'extra atoms attached, requested mutations incl. the same request twice) of each residue is repaired by the real code '
+            'inside multi-residue molecules (shared symmetry cache) and the outcome is decided by TLC from the definitions.',
+            'Trusts TLC. Exact largest-common-subgraph size only for residues of <= 8 atoms; above, the planted common part is a '
+            'lower bound. Matcher runs beyond a time limit are counted as inconclusive. -modify requests are covered by C14.',
+            'DESIGN.md section 5 / C04'),
+    'C02': ('model_checking',
+            'TLA+ spec ItpWrite (operational Write shaped like write_molecule_itp, declarative Canon, reader semantics ReadMol; '
+            'RoundTrip and companions as TLC invariants over a bounded molecule domain) + replay of every model molecule through '
+            'the real writer and an independent ITP reader + TLC-judged traces (editing histories, pipeline molecules)',
+            'Bounded-exhaustive over keys, atom ids (none / partial / permuted), interaction types incl. impropers and '
+            'virtual_sitesn, versions, guards, groups, comments, charge/mass presence; the text of the real writer is parsed by a '
+            'reader that shares no code with vermouth and compared with TLC\'s records.',
+            'Trusts TLC and harness/indep_readers.py. Known finding D11 (mass without charge) is reported as KNOWN-FINDING.',
+            'DESIGN.md section 5 / C02'),
+    'C03': ('model_checking',
+            'TLA+ spec Output (Name(dedup), SortAtoms, WritePDB, WriteTop transcribed; KthAtomAgrees, TopIsRunLength, IncludeOnce, '
+            'SameNameSameTopology invariants) checked by TLC; every model system replayed through the real NameMolType / '
+            'SortMoleculeAtoms / write_pdb / write_gmx_topology / DeferredFileWriter and parsed by independent readers; real CLI '
+            'runs judged by TLC',
+            'Systems of up to 4 molecules over molecule variants differing in one aspect, all orders (A, AB, ABA, AABA...), with and '
+            'without deduplication and sorting: files on disk are compared with the model\'s abstract files and judged by TLC.',
+            'Trusts TLC and the independent PDB/ITP/TOP readers. system.meta[header] is non-empty as the CLI makes it.',
+            'DESIGN.md section 5 / C03'),
+    'C10': ('model_checking',
+            'TLA+ spec Bonds (residue identity incl. input molecule, name edges / non-edges from reference blocks, six-conjunct '
+            'distance rule in integer arithmetic with a Bondi table in the spec, fall-back, molecules = components of the residue '
+            'graph; 23 one-clause variants make TLC certify which clause an input decides) + replay of an exhaustive 3-atom table '
+            'model + TLC-judged runs of the real MakeBonds over 27 sole-decider families',
+            'Every clause of the statement is the sole deciding factor in a dedicated generator family (certified by TLC through '
+            'the variants); the real result (bonds, distance attributes, molecules) must equal the spec\'s.',
+            'Trusts TLC. Coordinates on a 10 pm lattice, fudge as a rational; pairs within 1e-6 of a threshold are not generated.',
+            'DESIGN.md section 5 / C10'),
+    'C15': ('model_checking',
+            'TLA+ specs PairGraph + ElasticNet (five criteria, declarative and implementation-shaped forms, NaN clause) with a TAB '
+            'model replayed into the real ApplyRubberBand and TLC-judged sole-criterion families with rigid-motion / reordering twins',
+            'Bond set, lengths (exact 5-decimal rounding through two-limb arithmetic) and capped decayed constants of the real '
+            'processor must equal the spec\'s for every row of the table model and every generated molecule.',
+            'Trusts TLC; only exp() is evaluated in Python. Not generated: negative minimum force, decay with power 0.',
+            'DESIGN.md section 5 / C15'),
+    'C16': ('model_checking',
+            'TLA+ specs FixedColOps/FixedCol (fixed-column Render/Read tables for PDB ATOM/TER/CONECT and GRO; invariants '
+            'OtherFieldsUnaffected, RoundTripWithinWidth, ConectExactUpTo99999, TerSplitsMolecules) + TLC judging every line of '
+            'files written by the real writers (sliced with the spec\'s column table) and the values the real readers return',
+            'Boundary cases generated by TLC (serials around 10 000 and 100 000, overflowing and negative residue numbers, over-long '
+            'names, coordinate range, bond degree up to 6) are placed in real systems of up to 10^5 atoms, written, read back and judged.',
+            'Trusts TLC. Decimal rounding of coordinates is bounded in Python (0.5e-3). Blank names / altloc not generated.',
+            'DESIGN.md section 5 / C16'),
+    'C18': ('model_checking',
+            'TLA+ specs PairGraph + GoModel (sites, four contact criteria, declarative and one-pass forms) with a TAB model over all '
+            '2^12 directed contact sets replayed into the real GoPipeline and TLC-judged sole-criterion families',
+            'Sites (count, order, keys, construction, identity, type uniqueness) and pair potentials / exclusions of the real '
+            'pipeline must equal the spec\'s for every row of the table model and every generated multi-chain molecule.',
+            'Trusts TLC. sigma compared through the squared distance in pm^2 (1 pm^2). Known finding D13 (site types collide when '
+            'a later chain starts below residue 1) is reported as KNOWN-FINDING.',
+            'DESIGN.md section 5 / C18'),
 }
 
 PENDING = {}
